@@ -57,6 +57,7 @@ def run(ctx):
         import c13
         ctx.guard("state-reset" + tag, c13.state_reset, ctx, crate, tag)
         ctx.guard("soft-solvables-registered" + tag, soft_registered, ctx, crate, crs, tag)
+        ctx.guard("tracker-table" + tag, tracker_table, ctx, crate, crs, tag)
         # the forbid clauses only exclude a pair if they are propagated and the verdict machinery is intact, and only if a run that
         # was interrupted after installing a second candidate is not handed out as a solution (seed C15-12)
         import core
@@ -426,3 +427,31 @@ class _Only:
 def registration(ctx, crate, crs, tag):
     # every candidate of a requirement reaches AtMostOnceTracker::add of its own package (C01's encoding rule, tracker instances only)
     c01.encoding(_Only(ctx), crate, crs, tag)
+
+
+def tracker_table(ctx, crate, crs, tag):
+    """A package's tracker is created once and lives for the whole solve: the per-package table is only reached through
+    `entry(..).or_insert_with / or_default` in add_forbid_multiple_clauses; nothing inserts (overwrites), removes or clears an entry
+    (seed C15-15: a pre-sized tracker *inserted* when the candidates arrive discards the tracker that already holds a soft
+    requirement's candidate)."""
+    R = "tracker-table" + tag
+    n = 0
+    for b in crate.bodies:
+        if b.crate.is_test:
+            continue
+        for i, t in b.calls():
+            f = t.get("f")
+            if f is None or not t["args"]:
+                continue
+            d, _ = q.origin_thru(b, t["args"][0])
+            if not q.mentions_field(d, STATE_ADT, "forbidden_clauses_added"):
+                continue
+            nm = f["name"]
+            if nm in ("get", "contains_key", "len", "is_empty", "iter", "values", "keys", "deref", "borrow", "as_ref", "get_mut", "deref_mut"):
+                continue
+            n += 1
+            fn = q.enclosing_fn(crate, b)
+            ok = nm in ("entry",) and fn == AFMC
+            ctx.ob(R, fn, "tracker-created-once:%s" % nm, ok, where_call(b, i),
+                   "forbidden_clauses_added is only reached through entry(..) in add_forbid_multiple_clauses (found `%s`)" % nm)
+    ctx.floor(R, "accesses to the tracker table", n, 1)
